@@ -317,11 +317,11 @@ package index
 //@   define BK() = le32(bytes(key), 0) % pow2(idx.sizeBits)
 //@   define IK() = STRIP(idx, bytes(key))
 //@   define L() = len(key) - PFX(idx)
-//@   requires @config idx.sizeBits >= 8 && idx.sizeBits <= 31
-//@   requires @wf-bucket len(key) >= 4 && HASCUR(idx, BK()) ==> RL(idx, CUR(idx, BK()), L())
-//@   requires @record-stored idx.Primary.$Rin[keyof(location)] && ikey(idx.Primary.$Rkey[keyof(location)]) == bytes(key)
-//@   requires @fresh-location len(key) >= 4 && HASCUR(idx, BK()) ==> forall i int :: 0 <= i && i < rn(CUR(idx, BK())) ==> rblk(CUR(idx, BK()), i) != keyof(location)
-//@   requires @keylen len(key) - PFX(idx) < 256
+//@   local requires @config idx.sizeBits >= 8 && idx.sizeBits <= 31
+//@   local requires @wf-bucket len(key) >= 4 && HASCUR(idx, BK()) ==> RL(idx, CUR(idx, BK()), L())
+//@   local requires @record-stored idx.Primary.$Rin[keyof(location)] && ikey(idx.Primary.$Rkey[keyof(location)]) == bytes(key)
+//@   local requires @fresh-location len(key) >= 4 && HASCUR(idx, BK()) ==> forall i int :: 0 <= i && i < rn(CUR(idx, BK())) ==> rblk(CUR(idx, BK()), i) != keyof(location)
+//@   local requires @keylen len(key) - PFX(idx) < 256
 //@   preserves idx
 //@   unreachable return#3: every entry of a well-formed bucket points to a readable primary record (RLown), so reading the previous key cannot fail
 //@   unreachable return#4: the previous record's index key has the full key length (RLown), so it is never shorter than the bucket prefix
@@ -403,11 +403,11 @@ package index
 //@   define B0() = old(CUR(idx, BK()))
 //@   define I0() = rlast(B0(), IK())
 //@   preserves idx
-//@   requires @config idx.sizeBits >= 8 && idx.sizeBits <= 31
-//@   requires @wf-bucket len(key) >= 4 && HASCUR(idx, BK()) ==> RL(idx, CUR(idx, BK()), L())
-//@   requires @record-stored idx.Primary.$Rin[keyof(location)] && ikey(idx.Primary.$Rkey[keyof(location)]) == bytes(key)
-//@   requires @fresh-location len(key) >= 4 && HASCUR(idx, BK()) ==> forall i int :: 0 <= i && i < rn(CUR(idx, BK())) ==> rblk(CUR(idx, BK()), i) != keyof(location)
-//@   requires @own-entry len(key) >= 4 && HASCUR(idx, BK()) && rlast(CUR(idx, BK()), IK()) >= 0 ==> FK(idx, CUR(idx, BK()), rlast(CUR(idx, BK()), IK())) == IK()
+//@   local requires @config idx.sizeBits >= 8 && idx.sizeBits <= 31
+//@   local requires @wf-bucket len(key) >= 4 && HASCUR(idx, BK()) ==> RL(idx, CUR(idx, BK()), L())
+//@   local requires @record-stored idx.Primary.$Rin[keyof(location)] && ikey(idx.Primary.$Rkey[keyof(location)]) == bytes(key)
+//@   local requires @fresh-location len(key) >= 4 && HASCUR(idx, BK()) ==> forall i int :: 0 <= i && i < rn(CUR(idx, BK())) ==> rblk(CUR(idx, BK()), i) != keyof(location)
+//@   local requires @own-entry len(key) >= 4 && HASCUR(idx, BK()) && rlast(CUR(idx, BK()), IK()) >= 0 ==> FK(idx, CUR(idx, BK()), rlast(CUR(idx, BK()), IK())) == IK()
 //@   modifies idx.outstandingWork, mapof(idx.nextPool)
 //@   assert at after call index.RecordList.PutKeys#0: @upd-sorted RLsorted(bytes($r0))
 //@   assert at after call index.RecordList.PutKeys#0: @upd-prefixfree RLprefixfree(bytes($r0))
@@ -428,8 +428,8 @@ package index
 //@   define B0() = old(CUR(idx, BK()))
 //@   define I0() = rlast(B0(), IK())
 //@   preserves idx
-//@   requires @config idx.sizeBits >= 8 && idx.sizeBits <= 31
-//@   requires @wf-bucket len(key) >= 4 && HASCUR(idx, BK()) ==> RL(idx, CUR(idx, BK()), L())
+//@   local requires @config idx.sizeBits >= 8 && idx.sizeBits <= 31
+//@   local requires @wf-bucket len(key) >= 4 && HASCUR(idx, BK()) ==> RL(idx, CUR(idx, BK()), L())
 //@   modifies idx.outstandingWork, mapof(idx.nextPool)
 //@   assert at after call index.RecordList.PutKeys#0: @rm-sorted RLsorted(bytes($r0))
 //@   assert at after call index.RecordList.PutKeys#0: @rm-prefixfree RLprefixfree(bytes($r0))
